@@ -23,7 +23,7 @@ RULE = ("hypothesis-generated values (derandomised from the seed) from the lossl
         "x level; non-trivial = not a bare scalar None/bool")
 ASSUMPTIONS = ["ints bounded by CPython's int<->str digit limit", "datetimes: naive, whole milliseconds, TZ=UTC",
                "values a serializer refuses are only required to be refused on every path alike"]
-REQUIRED_REACH = ["shards_with_serpent_bytes_repr", "codec_core_ok", "codec_ext_ok", "wire_ok", "wire_batch_ok", "wire_stream_ok", "wire_compressed_request", "wire_compressed_reply", "wire_with_annotations", "codec_memoryview_same"]
+REQUIRED_REACH = ["concurrent_wire_calls", "shards_with_serpent_bytes_repr", "codec_core_ok", "codec_ext_ok", "wire_ok", "wire_batch_ok", "wire_stream_ok", "wire_compressed_request", "wire_compressed_reply", "wire_with_annotations", "codec_memoryview_same"]
 SHARD_TIMEOUT = {"quick": 220, "thorough": 2400}
 RAISED = object()
 
@@ -343,6 +343,65 @@ def check_wire(fx, svc, name, x, is_core, pad, rec, seq):
     rec.count("wire_stream_ok")
 
 
+def concurrent_wire_phase(fx, svc, rec, r):
+    """several clients at once (thread server: their messages are serialised and parsed by different threads at the same moment), every one
+    sending and receiving values that take the serializers' fallback hooks (sets, ints beyond 64 bit, complex, dates, uuid, decimal): each call
+    still delivers its own value, mapped as the serializer maps it when nobody else is around"""
+    import datetime
+    import decimal
+    import uuid
+    from vlib import yieldinj
+    P = fx.P
+    sers = P.serializers.serializers
+    values = [{1, 2, 3}, 2 ** 70 + 1, [-(2 ** 90), {"k": 2 ** 65}], (1, "t", 2.5), {"s": {4, 5}, "t": (6,)}, complex(1, -2), [datetime.date(2020, 2, 29)], uuid.UUID(int=12345),
+              decimal.Decimal("1.25"), frozenset(["a"]), [1, [2, [3, {"x": {7}}]]], "plain", {"n": None, "l": [True, 1.5]}]
+    problems = []
+    lock = threading.Lock()
+
+    def client(tid, name):
+        ser = sers[name]
+        try:
+            with fx.proxy("echo", serializer=name, timeout=20.0) as p:
+                for n in range(25):
+                    v = values[(tid * 7 + n) % len(values)]
+                    tag = "c%d-%d" % (tid, n)
+                    want_res = outcome(lambda: ser.loads(ser.dumps([tag, v])))
+                    want_arg = outcome(lambda: ser.loadsCall(ser.dumpsCall("o", "m", (tag, v), {}))[2])
+                    key = "conc-%s-%s" % (name, tag)
+                    got = outcome(lambda: p.echo(key, tag, v))
+                    with svc.lock:
+                        recv = svc.received.pop(key, None)
+                    if is_raised(want_res) or is_raised(want_arg):
+                        continue          # (a value this serializer refuses: not part of this phase)
+                    bad = None
+                    if is_raised(got) or not gen.deep_eq(got, want_res):
+                        bad = "returned %s, on its own the serializer maps the result to %s" % (core.short(got, 150), core.short(want_res, 150))
+                    elif recv is None or not gen.deep_eq(list(recv[0]), list(want_arg)):
+                        bad = "the method received %s, on its own the serializer maps the arguments to %s" % (core.short(recv, 150), core.short(want_arg, 150))
+                    with lock:
+                        rec.count("concurrent_wire_calls")
+                        if bad:
+                            problems.append("%s client %d call %d echo(%s): %s" % (name, tid, n, core.short(v, 80), bad))
+        except Exception as x:
+            with lock:
+                problems.append("%s client %d could not work: %r" % (name, tid, x))
+    yieldinj.enable(("Pyro5/serializers.py",), 0.15, rec.seed * 29 + 5, max_sleep=0.0005)
+    try:
+        ts = [threading.Thread(target=client, args=(i, fixture.SERIALIZERS[i % 4] if i < 4 else "msgpack"), daemon=True) for i in range(7)]
+        for t in ts:
+            t.start()
+        for t in ts:
+            t.join(120)
+    finally:
+        n_inj, _ = yieldinj.disable()
+        rec.count("injected_yields", n_inj)
+    rec.case(("concurrent-wire", fx.servertype, P.config.COMPRESSION), nontrivial=True)
+    if any(t.is_alive() for t in ts):
+        rec.inconc("concurrent wire phase did not finish")
+    elif problems:
+        rec.violation("value-changed-under-concurrency", "%d of the calls made by 7 concurrent clients did not get their own value; first: %s" % (len(problems), problems[0]), None)
+
+
 def nontrivial(x):
     return not (x is None or isinstance(x, bool))
 
@@ -432,6 +491,8 @@ def run_shard(shard, rec):
                 rec.count("deeply_nested_values")
         gen.draw_many(gen.core_values(12), shard["n"], seed + 5, core_case)
         gen.draw_many(gen.ext_values(8), shard["n"] // 2, seed + 6, ext_case)
+        if shard["servertype"] == "thread":
+            concurrent_wire_phase(fx, svc, rec, r)
         for kind, text in fixture.take_faults():
             rec.violation("server-thread-fault", "%s: %s" % (kind, text), None)
     finally:
